@@ -170,7 +170,7 @@ class Run:
         return corr
 
 
-STATELESS = {"res", "stream", "sort", "conf"}
+STATELESS = {"res", "stream", "sort", "conf", "lock"}
 # verdict lines may carry several failing clauses separated by " ;; "
 
 
